@@ -9,7 +9,7 @@ poll and around the inner drop (R7).
 import re
 from rulekit import Facts, where, proj_names
 from rulekit.sym import PathEval, show
-from rulekit.query import guards_of, recv_fields, option_test
+from rulekit.query import guards_of, recv_fields, option_test, drop_blocks, dropped_on_all_exits
 
 DISPATCH = "tracing_core::dispatch::Dispatch"
 SP = "tracing::span::"
@@ -374,11 +374,8 @@ def r5(ck, F):
         ok = len(en) == 1 and len(fc) == 1 and ins.dominates(en[0][0], fc[0][0])
         if ok:
             gl = en[0][1]["dest"]["l"]
-            drops = [i for i, blk in enumerate(ins.blocks) if blk["term"]["k"] == "drop" and blk["term"]["place"] == {"l": gl}]
-            t = fc[0][1]
-            ra = ins.reachable(t["ret"], avoid=drops)
-            ua = ins.reachable(t["unwind"], unwind=True, avoid=drops) if isinstance(t.get("unwind"), int) else None
-            ok = not any(e in ra for e in ins.exits()) and ua is not None and not any(ins.term(x)["k"] == "resume" for x in ua)
+            drops = drop_blocks(ins, gl)
+            ok = not dropped_on_all_exits(ins, fc[0][0], drops)
         if ok:
             ck.ok("C03.R5", "in_scope holds the guard across f() and exits on panic", fn=ins.path)
         else:
